@@ -362,7 +362,7 @@ def build():
         ],
         "checks": checks,
         "not_applicable": [{"property_id": p, "reason": NOT_YET} for p in ALL if p not in CHECKS],
-        "notes": "All checks: ./check <ID> --tier quick|thorough; known findings in known_findings.json; seeded breaking changes in seeded/.",
+        "notes": "All checks: ./check <ID> --tier quick|thorough; known findings in known_findings.json; seeded breaking changes in seeded/ (seeded/RESULTS.md: which check reports which); committed replay files in regressions/ (tests/test_replays.py). The thorough tier uses the same alphabets with larger bounds and starts its chunks in a fixed interleaved order until a wall-clock budget is used up (VERIF_BUDGET_S seconds, default 1500, 0 = none); chunks not started are reported in the evidence as a cap (DESIGN.md 7a).",
     }
     return m
 
